@@ -52,10 +52,10 @@ CHECKS={
 }
 import os
 claimed=[c for c in CHECKS if os.environ.get('ONLY') is None or c in os.environ['ONLY'].split(',')]
-hooks_commits=[]
+hooks_commits=["a1c8341"]
 m={"version":1,
 "setup_cmd":"./setup.sh",
-"hooks":{"guard":"dust_dds_verif","enable":"no hooks are needed: the simulator plugs into dust-dds' public DdsRuntime / TransportParticipantFactory seams (DomainParticipantFactoryAsync::new)","baseline_off_cmd":"cd /repo && cargo test --workspace --no-fail-fast --offline","source_commits":hooks_commits,"add_only":True},
+"hooks":{"guard":"dust_dds_verif","enable":"RUSTFLAGS --cfg dust_dds_verif (set in /verif/sim/.cargo/config.toml). One hook: rtps_udp_transport::udp_transport::verif_resolve_destination, which lets the simulated transport run the real UDP sender's destination resolution (C06). Everything else plugs into dust-dds' public DdsRuntime / TransportParticipantFactory seams (DomainParticipantFactoryAsync::new)","baseline_off_cmd":"cd /repo && cargo test --workspace --no-fail-fast --offline","source_commits":hooks_commits,"add_only":True},
 "engines":[{"name":"shuttle","path":"/verif/shuttle","serves_properties":[c for c in claimed if CHECKS[c][0]=="shuttle"],"kind_free_text":"thread-level deterministic simulation with shuttle 0.9.3 (seeded random / PCT schedulers, replayable schedules); sources under test copied from /repo at build time; own virtual clock, timed channels and park/unpark"},{"name":"ddsim","path":"/verif/sim","serves_properties":[c for c in claimed if CHECKS[c][0]=="ddsim"],"kind_free_text":"single-threaded discrete-event simulator: own executor, virtual clock/timers, in-memory faulty datagram network; runs the real dust-dds stack through its public runtime/transport seams; one forked process per run"}],
 "checks":[{
   "property_id":c,
@@ -65,7 +65,7 @@ m={"version":1,
   "replay_cmd_template":f"./check {c} --replay {{path}}",
   "engine":CHECKS[c][0],
   "level_claimed":{"category":"exploration","text":"seeded search over schedules and fault sequences of whole-system simulated executions; a clean batch is evidence that the property holds on the explored executions, not a proof","design_ref":"DESIGN.md section "+CHECKS[c][1]},
-  "level_note":("trusts shuttle's scheduler as a model of sequentially consistent threads, the hand-written simstd (clock, mpsc with timeouts, park) as a model of std, and the oracles in /verif/shuttle/src" if CHECKS[c][0]=="shuttle" else "trusts the simulator's executor/clock/network as a model of legal runtime and UDP behaviour, the reference models/oracles in /verif/sim/src/scen, and the Rust toolchain; real dust-dds code runs unmodified (no hooks)"),
+  "level_note":("trusts shuttle's scheduler as a model of sequentially consistent threads, the hand-written simstd (clock, mpsc with timeouts, park) as a model of std, and the oracles in /verif/shuttle/src" if CHECKS[c][0]=="shuttle" else "trusts the simulator's executor/clock/network as a model of legal runtime and UDP behaviour, the reference models/oracles in /verif/sim/src/scen, and the Rust toolchain; real dust-dds code runs unmodified (one guarded, add-only hook, see hooks)"),
   "technique":CHECKS[c][2],
  } for c in claimed],
 "notes":"Known findings and fixed defects: /verif/known_findings.json. Violations print 'VIOLATION property=<id> replay=<path>' and exit 1; harness errors exit 2.",
